@@ -91,6 +91,9 @@ def main():
     dirs = [os.path.dirname(f) for f in sorted(glob.glob(os.path.join(VERIF, 'seeded', 'C*', '*', 'meta.json')))]
     if args:
         dirs = [d for d in dirs if d.split(os.sep)[-2] in args]
+    if '--names' in sys.argv:
+        names = sys.argv[sys.argv.index('--names') + 1].split(',')
+        dirs = [d for d in dirs if d.split(os.sep)[-1] in names]
     with ThreadPoolExecutor(j) as ex:
         for line in ex.map(one, dirs):
             print(line, flush=True)
